@@ -17,7 +17,8 @@ def handleC04 (kind : String) (fs : List (String × String)) : String :=
       let bad := getD fs "bad" "-"
       let conv := getD fs "converged" "0" == "1"
       let ops := (getNat fs "ops").getD 0
-      verdict (bad == "-" && conv) (if bad == "-" then none else some bad) (ops ≥ 3)
+      -- `converged` is informational: an operation issued just before the horizon may not have spread yet
+      verdict (bad == "-") (if bad == "-" then none else some bad) (ops ≥ 3)
         s!"healthy-n{min ((getNat fs "n").getD 0 / 4) 3}-leavers{min ((getNat fs "leavers").getD 0) 2}"
         (if conv then "" else "views-not-equal-at-end")
   | _ => "PARSE kind"
